@@ -14,7 +14,8 @@ type c05Block struct {
 	MaxIdle  int      `json:"max_idle"`
 }
 
-var c05IEIF = [][2]uint8{{0x00, 0x00}, {0x1f, 0x00}, {0x04, 0x00}, {0x04, 0x04}, {0x1f, 0x05}, {0x01, 0x1e}, {0x10, 0x10}, {0x1f, 0x1f}}
+var c05IEIF = [][2]uint8{{0x00, 0x00}, {0x1f, 0x00}, {0x04, 0x00}, {0x04, 0x04}, {0x1f, 0x05}, {0x01, 0x1e}, {0x10, 0x10}, {0x1f, 0x1f},
+	{0xe0, 0x00}, {0xe4, 0x00}, {0xff, 0x00}, {0x24, 0x1b}, {0xe4, 0x04}} // the unused IE bits 5-7 are plain storage: they enable nothing
 
 func c05Check(l *explore.Local, e *cpuEnv, b c05Block) *explore.Fail {
 	if b.One != nil {
@@ -77,14 +78,14 @@ func c05Check(l *explore.Local, e *cpuEnv, b c05Block) *explore.Fail {
 func init() {
 	register("C05", "model_checking", func(c *Ctx) {
 		if c.R != nil {
-			c.R.Rule = "HALT followed by every opcode (245 base with operand bytes + 256 CB-prefixed) x IME x 8 (IE, IF) combinations (nothing pending, pending-enabled, pending-not-enabled, several) x one interrupt request of every source raised before every machine cycle up to the idle bound (and none), and a key press reported by the front end (cpu.OnInput) before every such cycle, alone and followed by a request; lock-step with the reference control machine: while idle nothing may change (checked every cycle), IME=1 wake-up dispatches in 6 cycles, IME=0 wake-up resumes at the following instruction without touching IF, pending-at-HALT with IME=0 executes the following byte twice"
+			c.R.Rule = "HALT followed by every opcode (245 base with operand bytes + 256 CB-prefixed) x IME x 13 (IE, IF) combinations (nothing pending, pending-enabled, pending-not-enabled, several, IE with its unused bits 5-7 set) x one interrupt request of every source raised before every machine cycle up to the idle bound (and none), and a key press reported by the front end (cpu.OnInput) before every such cycle, alone and followed by a request; lock-step with the reference control machine: while idle nothing may change (checked every cycle), IME=1 wake-up dispatches in 6 cycles, IME=0 wake-up resumes at the following instruction without touching IF, pending-at-HALT with IME=0 executes the following byte twice"
 			c.R.Assumptions = []string{"wake-up latency with IME=0 is not fixed by the statement (0-4 cycles accepted)", "halt bug with a CB-prefixed follower is unspecified (skipped)", "a request arriving during a dispatch is unspecified (pruned)"}
 		}
 		idle := 8
 		if c.Thorough() {
 			idle = 32
 		}
-		explore.Product(c.R, "halt-followers", explore.PartOpt{Bound: "idle lengths 0.." + itoa(idle) + " cycles", Domain: "every follower opcode x IME x 8 IE/IF combinations x 5 sources"},
+		explore.Product(c.R, "halt-followers", explore.PartOpt{Bound: "idle lengths 0.." + itoa(idle) + " cycles", Domain: "every follower opcode x IME x 13 IE/IF combinations x 5 sources"},
 			func(yield func(c05Block) bool) {
 				for op := 0; op < 512; op++ {
 					if op < 256 && (ref.UndefinedOpcodes[uint8(op)] || op == 0xcb) {
